@@ -5,10 +5,10 @@ from concurrent.futures import ProcessPoolExecutor
 
 import lib
 
-HEADER_LISTS = [None, ["=", "-", "~"], ["~"], ["*", "#"]]
+HEADER_LISTS = [None, ["=", "-", "~"], ["~", "+", "="], ["*", "#", "^"]]
 
 
-def render_line(l, hchar):
+def render_line(l, hchar, hlist=None):
     t = l["t"]
     sp = " " * l["sp"]
     k = t[0]
@@ -31,6 +31,14 @@ def render_line(l, hchar):
         return sp + ".. dir%d:: arg%d" % (t[1], t[1])
     if k == "option":
         return sp + ":opt%d: v%d" % (t[2], t[2])
+    if k == "doctest":
+        return sp + ">>> test%d" % t[1]
+    if k == "expected":
+        return "exp%d" % t[1]
+    if k == "sover":
+        return hlist[t[2]] * t[3]
+    if k == "stitle":
+        return t[2]
     raise ValueError(t)
 
 
@@ -40,7 +48,8 @@ def replay_history(beh, headers):
     from cminx.config import Settings, RSTSettings
     hist, outs = beh["hist"], beh["outs"]
     settings = Settings(rst=RSTSettings(headers=headers)) if headers else Settings()
-    hchar = (headers or RSTWriter.heading_level_chars)[0]
+    hlist = list(headers or RSTWriter.heading_level_chars)
+    hchar = hlist[0]
     handles = {}
     drift = []
     root = None
@@ -73,6 +82,12 @@ def replay_history(beh, headers):
         elif op == "directive":
             nnodes += 1
             handles[nnodes] = w.directive("dir%d" % nnodes, "arg%d" % nnodes)
+        elif op == "doctest":
+            nnodes += 1
+            w.doctest("test%d" % nnodes, "exp%d" % nnodes)
+        elif op == "section":
+            nnodes += 1
+            handles[nnodes] = w.section(o["t"]["id"])
         elif op == "option":
             j = len(w.options) + 1
             w.option("opt%d" % j, "v%d" % j)
@@ -83,7 +98,7 @@ def replay_history(beh, headers):
             got = w.to_text()
             got2 = str(w)
             after = (len(w.document), len(getattr(w, "options", [])), [id(x) for x in w.document])
-            exp = "\n".join(render_line(l, hchar) for l in outs[k]) + "\n"
+            exp = "\n".join(render_line(l, hchar, hlist) for l in outs[k]) + "\n"
             kinds = [l["t"][0] for l in outs[k]]
             k += 1
             if got != exp:
